@@ -2423,6 +2423,18 @@ def _match_next(data: bytes, keytype: bytes, public: bool = False) -> \
     return None, (), len(data)
 
 
+def _make_key(make_key: Callable[[object], SSHKey],
+              key_params: object) -> SSHKey:
+    """Construct a key, reporting impossible key parameters as import errors"""
+
+    try:
+        return make_key(key_params)
+    except KeyImportError:
+        raise
+    except (ValueError, OverflowError) as exc:
+        raise KeyImportError(f'Invalid key parameters: {exc}') from None
+
+
 def _decode_pkcs1_private(
         pem_name: bytes, key_data: object,
         unsafe_skip_rsa_key_validation: Optional[bool]) -> SSHKey:
@@ -2442,7 +2454,7 @@ def _decode_pkcs1_private(
         key_params = cast(Tuple, key_params) + \
             (unsafe_skip_rsa_key_validation,)
 
-    return handler.make_private(key_params)
+    return _make_key(handler.make_private, key_params)
 
 
 def _decode_pkcs1_public(pem_name: bytes, key_data: object) -> SSHKey:
@@ -2457,7 +2469,7 @@ def _decode_pkcs1_public(pem_name: bytes, key_data: object) -> SSHKey:
     if key_params is None:
         raise KeyImportError(f'Invalid {pem_name.decode("ascii")} public key')
 
-    return handler.make_public(key_params)
+    return _make_key(handler.make_public, key_params)
 
 
 def _decode_pkcs8_private(
@@ -2487,7 +2499,7 @@ def _decode_pkcs8_private(
             key_params = cast(Tuple, key_params) + \
                 (unsafe_skip_rsa_key_validation,)
 
-        return handler.make_private(key_params)
+        return _make_key(handler.make_private, key_params)
     else:
         raise KeyImportError('Invalid PKCS#8 private key')
 
@@ -2513,7 +2525,7 @@ def _decode_pkcs8_public(key_data: object) -> SSHKey:
                        handler.pem_name else 'PKCS#8'
             raise KeyImportError(f'Invalid {key_type} public key')
 
-        return handler.make_public(key_params)
+        return _make_key(handler.make_public, key_params)
     else:
         raise KeyImportError('Invalid PKCS#8 public key')
 
